@@ -1,4 +1,4 @@
-// Stand-alone reproducer for fixes/c02inter-1.diff and c02inter-2.diff (plain crab API, no harness).
+// Stand-alone reproducer for fixes/c02inter-1.diff, c02inter-2.diff and c02inter-3.diff (plain crab API, no harness).
 //   g++ -std=c++11 -O1 -w -I<crab>/include -I<dir with crab/config.h> -I<crab>/tests c02inter-repro.cpp libCrab.a -lgmp
 //   ./a.out 1   top_down_inter_analyzer, analyze_recursive_functions = run_checker = true, on
 //                 main { r := f1(a) }
@@ -10,6 +10,11 @@
 //                 f1(a) -> r  { if (a <= 0) { r := 0 } else { havoc(k); assume(5 <= k <= 10); r := f2(k); k := 5; r := f2(k) } }
 //                 f2(b) -> s  { assert(b <= 7)  /* line 1 */ ; k := 0; s := f1(k) }
 //               f2(9) violates the assertion.  unfixed: the checks of line 1 are "safe" only; fixed: they contain a warning
+//   ./a.out 3   default parameters (analyze_recursive_functions = false, exact_summary_reuse = true), run_checker = true, on
+//                 main { r := f1(a) }
+//                 f1(a) -> r  { if (*) { r := 0 } else { x := f1(a); assert(x <= 5) /* line 1 */; k := f2(x); r := k } }
+//                 f2(b) -> s  { s := 7 }
+//               unfixed: "CRAB ERROR: in checking phase we should not analyze the callsite k = call f2(x)", exit(1)
 #include "crab_lang.hpp"
 #include <crab/analysis/inter/top_down_inter_analyzer.hpp>
 #include <crab/cg/cg.hpp>
@@ -38,7 +43,16 @@ int main(int argc, char **argv) {
   z_cfg_t f1("b0", "b3", fdecl_t("f1", {a}, {r}));
   z_cfg_t f2("b0", which == 1 ? "b3" : "b0", fdecl_t("f2", {b}, {s}));
   diamond(f1);
-  if (which == 1) {
+  if (which == 3) {
+    m.insert("b0").callsite("f1", {r}, {a});
+    f1.get_node("b1").assign(r, 0);
+    z_basic_block_t &e = f1.get_node("b2");
+    e.callsite("f1", {x}, {a});
+    e.assertion(z_lin_exp_t(x) <= 5, dbg_t("prog", 1, 0, 1));
+    e.callsite("f2", {k}, {x});
+    e.assign(r, k);
+    f2.insert("b0").assign(s, 7);
+  } else if (which == 1) {
     m.insert("b0").callsite("f1", {r}, {a});
     f1.get_node("b2").assertion(z_lin_exp_t(x) - z_lin_exp_t(a) <= -1, dbg_t("prog", 1, 0, 1));
     f1.get_node("b2").callsite("f2", {x}, {x});
@@ -60,7 +74,7 @@ int main(int argc, char **argv) {
   cg_t cg(cfgs);
   crab::analyzer::inter_analyzer_parameters<cg_t> params;
   params.run_checker = true;
-  params.analyze_recursive_functions = true;
+  params.analyze_recursive_functions = (which != 3);
   dom_t top;
   crab::analyzer::top_down_inter_analyzer<cg_t, dom_t> an(cg, top, params);
   an.run(top);
